@@ -310,7 +310,9 @@ impl Model for E1Model {
         if !self.merge {
             key = hash64(&(key, &script, produced));
         }
-        self.keys[shard_index()].lock().unwrap().insert(hash64(&(s.case, obs.key.as_deref().unwrap_or(""), &r.key)));
+        // identity of the case by content (not by its index, which differs between explorations)
+        let case_id = hash64(&(&case.text, case.sigs.iter().map(|s| s.show()).collect::<Vec<_>>(), case.ov, case.init_menu.iter().map(|m| m.label.clone()).collect::<Vec<_>>()));
+        self.keys[shard_index()].lock().unwrap().insert(hash64(&(case_id, obs.key.as_deref().unwrap_or(""), &r.key)));
         Some(St {
             case: s.case,
             script,
